@@ -457,7 +457,7 @@ theorem loopA_eq_loop' (r : Rule) (pw : K → K) (x : ℕ → K) :
     obtain ⟨s, e, I⟩ := w0
     intro y h
     have he : e < y.size := h (s, e, I) List.mem_cons_self
-    simp only [loopA, loop]
+    simp only [loopA, loop, updWith_eq]
     have := ih (tab y.size (upd r pw x (arrFn y) s e I))
       (fun w hw => by rw [tab_size]; exact h w (List.mem_cons_of_mem _ hw))
     rw [arrFn_tab_upd r pw x y s e I he, tab_size] at this
